@@ -1,0 +1,56 @@
+//! Verification hooks (compiled only with `--cfg nexosim_verif`).
+//!
+//! Thin public wrappers over crate-private types so that an out-of-tree
+//! harness can drive the real code. Nothing here changes the behaviour of the
+//! library.
+
+#![allow(missing_docs, missing_debug_implementations, unreachable_pub)]
+
+use crate::util::indexed_priority_queue::{IndexedPriorityQueue, InsertKey};
+use crate::util::priority_queue::PriorityQueue;
+
+/// `util::priority_queue::PriorityQueue<u64, u64>`.
+pub struct VPriorityQueue(PriorityQueue<u64, u64>);
+
+impl VPriorityQueue {
+    pub fn new() -> Self {
+        Self(PriorityQueue::new())
+    }
+    pub fn insert(&mut self, key: u64, value: u64) {
+        self.0.insert(key, value)
+    }
+    pub fn pull(&mut self) -> Option<(u64, u64)> {
+        self.0.pull()
+    }
+    pub fn peek(&self) -> Option<(u64, u64)> {
+        self.0.peek().map(|(k, v)| (*k, *v))
+    }
+}
+
+/// `util::indexed_priority_queue::IndexedPriorityQueue<u64, u64>`.
+pub struct VIndexedPriorityQueue(IndexedPriorityQueue<u64, u64>);
+
+impl VIndexedPriorityQueue {
+    pub fn new() -> Self {
+        Self(IndexedPriorityQueue::new())
+    }
+    pub fn len(&self) -> usize {
+        self.0.len()
+    }
+    /// Returns the raw parts `(slab_idx, epoch)` of the insertion key.
+    pub fn insert(&mut self, key: u64, value: u64) -> (usize, u64) {
+        self.0.insert(key, value).into_raw_parts()
+    }
+    pub fn pull(&mut self) -> Option<(u64, u64)> {
+        self.0.pull()
+    }
+    pub fn peek(&self) -> Option<(u64, u64)> {
+        self.0.peek().map(|(k, v)| (*k, *v))
+    }
+    pub fn peek_key(&self) -> Option<u64> {
+        self.0.peek_key().copied()
+    }
+    pub fn extract(&mut self, slab_idx: usize, epoch: u64) -> Option<(u64, u64)> {
+        self.0.extract(InsertKey::from_raw_parts(slab_idx, epoch))
+    }
+}
